@@ -341,13 +341,13 @@ class DualPortSynchronousMemory(Logic):
         
         # always reading
         #print(f'reading address {add} = {self.data[add]}')
+        # (both ports read the content before any same-cycle write)
         self.readdata_a.prepare(self.data[radda])
+        self.readdata_b.prepare(self.data[raddb])
         
         if (self.write_a.get()):
             self.data[wadda] = self.writedata_a.get()
             
-        self.readdata_b.prepare(self.data[raddb])
-        
         if (self.write_b.get()):
             self.data[waddb] = self.writedata_b.get()
 
